@@ -128,6 +128,10 @@ type Service struct {
 	// at least once to the webhook endpoint.
 	fifo *Queue
 
+	// undelivered is the event a leader loop has read from the FIFO and is still
+	// trying to deliver. Only leader loops touch it, and at most one runs at a time.
+	undelivered *Event
+
 	// queue implements the batching of CDC events before transmission to the webhook. The
 	// contents of this queue do not persist across restarts or leader changes.
 	batcher *queue.Queue[*proto.CDCIndexedEventGroup]
@@ -510,10 +514,11 @@ func (s *Service) leaderLoop() (chan struct{}, chan struct{}) {
 			case <-stop:
 				return
 
-			case ev := <-s.fifo.C:
+			case ev := <-s.leaderEvents():
 				if ev == nil {
 					return
 				}
+				s.undelivered = nil
 				if ev.Index <= s.highWatermark.Load() {
 					// High watermark has advanced since we read this event from the FIFO.
 					// This could happen on followers if the Leader has advanced the HWM
@@ -530,6 +535,10 @@ func (s *Service) leaderLoop() (chan struct{}, chan struct{}) {
 					s.logger.Printf("error decompressing data for batch from FIFO: %v", err)
 					continue
 				}
+
+				// Until the event has been dealt with it must survive this loop being
+				// stopped: the FIFO emits each event only once.
+				s.undelivered = ev
 
 				nAttempts := 0
 				retryDelay := s.transmitMinBackoff
@@ -570,6 +579,7 @@ func (s *Service) leaderLoop() (chan struct{}, chan struct{}) {
 					case <-t.C:
 					}
 				}
+				s.undelivered = nil
 				if sentOK {
 					s.highWatermark.Store(ev.Index)
 					stats.Add(numEventsTxOK, 1)
@@ -579,6 +589,19 @@ func (s *Service) leaderLoop() (chan struct{}, chan struct{}) {
 	}()
 
 	return stop, done
+}
+
+// leaderEvents returns the channel from which the leader loop takes its next event:
+// the FIFO, unless an earlier leader loop was stopped (leadership lost) while it was
+// still trying to deliver an event. The FIFO will not emit that event again until it
+// is reopened, so it is offered again here.
+func (s *Service) leaderEvents() <-chan *Event {
+	if s.undelivered == nil {
+		return s.fifo.C
+	}
+	ch := make(chan *Event, 1)
+	ch <- s.undelivered
+	return ch
 }
 
 // leaderHWMLoop handles periodic high watermark operations for leaders.
